@@ -94,6 +94,14 @@ def step (st : St) (toks : List String) : St × String :=
     match fmtByName name, hexToText ts, parseLe le with
     | some f, some ts, some le => (st, textToHex (frame le (f.run ts st.cur)))
     | _, _, _ => (st, "bad-op")
+  -- the same thread logs a record with a message of `n` letters `B` first, then the current record
+  -- (whatever the first one left in a buffer must not show in the second one)
+  | ["FMT2", name, ts, le, n] =>
+    match fmtByName name, hexToText ts, parseLe le, n.toNat? with
+    | some f, some ts, some le, some n =>
+      let big : Rec := { st.cur with msg := List.replicate n 'B' }
+      (st, textToHex (frame le (f.run ts big) ++ frame le (f.run ts st.cur)))
+    | _, _, _, _ => (st, "bad-op")
   -- one log call, several outputs; the clock reading of each output is given (text, rendered as is)
   | "OUTS" :: outs =>
     let parsed := outs.foldr (fun o acc =>
